@@ -57,6 +57,10 @@ ASSUMPTIONS = [
     "along within 1e-9 (networkx based and sub-hypergraph centrality, 1e-8 relative for the latter) "
     "resp. 1e-6 (CEC/HEC, two independent seeds)",
     "random initialisations of the power iterations are sampled over drawn seeds, not exhausted",
+    "temporal hypergraphs are built record by record when a weighted batch would list one node "
+    "tuple at two times (TemporalHypergraph.add_edges rejects that with a documented ValueError; "
+    "container behaviour is C03's subject); sub-hypergraph centrality is only given unweighted "
+    "hypergraphs",
 ]
 
 # --------------------------------------------------------------------------
